@@ -183,7 +183,7 @@ RE = "run_engine.py"
 MUTANTS = [
     ("post-plan runs before the wait",
      [(RE, "            # if there is a post plan, run it\n            if post_plan is not None:\n                yield from ensure_generator(post_plan)\n", ""),
-      (RE, "            # wait for the future from the suspender to be released\n", "            if post_plan is not None:\n                yield from ensure_generator(post_plan)\n            # wait for the future from the suspender to be released\n")], "C11.D1"),
+      (RE, "            # wait for the future from the suspender to be released.  This message is not\n", "            if post_plan is not None:\n                yield from ensure_generator(post_plan)\n            # wait for the future from the suspender to be released.  This message is not\n")], "C11.D1"),
     ("devices not stopped at suspension",
      [(RE, "        # every object we ever set().\n        await self._stop_movable_objects(success=True)\n        # Notify Devices of the pause in case they want to clean up.\n        for obj in self._objs_seen:\n            if hasattr(obj, \"pause\"):",
        "        # Notify Devices of the pause in case they want to clean up.\n        for obj in self._objs_seen:\n            if hasattr(obj, \"pause\"):")], "C11.D1"),
@@ -192,7 +192,9 @@ MUTANTS = [
     ("pre and post plan swapped in the request message",
      [(RE, 'single_gen(Msg("_start_suspender", None, pre_plan, post_plan, justification, fut))', 'single_gen(Msg("_start_suspender", None, post_plan, pre_plan, justification, fut))')], "C11.D1"),
     ("helper waits on nothing",
-     [(RE, "                [\n                    fut,\n                ],\n", "                [],\n")], "C11.D1"),
+     [(RE, "            while (yield Msg(\"wait_for\", None, [fut])) is None:\n                pass\n", "            while (yield Msg(\"wait_for\", None, [])) is None:\n                pass\n")], "C11.D1"),
+    ("helper waits once (revert of F-16)",
+     [(RE, "            while (yield Msg(\"wait_for\", None, [fut])) is None:\n                pass\n", "            yield Msg(\"wait_for\", None, [fut])\n")], "C11.D5"),
     ("suspender passes its post plan as pre plan",
      [("suspenders.py", "                        pre_plan=self._pre_plan,\n                        post_plan=self._post_plan,", "                        pre_plan=self._post_plan,\n                        post_plan=self._post_plan,")], "C11.D4"),
     ("suspender requests on every bad value",
